@@ -15,13 +15,10 @@
                                   draws of the sample s that hit those rows;
    - `member_preds O trees row p` p lists the member trees' own predictions for `row` in tree order
                                   (`member_vals` for the regressor);
-   - `oob_members trees masks i`  the trees whose stored mask is `false` at row i, in tree order;
-   - `orders_sorted x vars`       C05's hypothesis: the orders quick_argsort computes for the tried
-                                  features are sorting permutations (permutation half proved in C05,
-                                  sortedness validated at run time by C05's correspondence). *)
+   - `oob_members trees masks i`  the trees whose stored mask is `false` at row i, in tree order; *)
 From Coq Require Import List Arith ZArith Bool Reals Lra Lia Floats.
-From SC Require Import Base.Num C05.Model C05.ProofsGrow C05.ProofsReg C06.Model
-     C06.ProofsBoot C06.ProofsAgg C06.ProofsFit C06.ProofsRange C06.ProofsTie C06.ProofsTotal C06.ProofsInst C06.ProofsOob.
+From SC Require Import Base.Num C05.Model C05.ProofsGrow C05.ProofsReg C05.ProofsCls C06.Model
+     C06.ProofsBoot C06.ProofsAgg C06.ProofsFit C06.ProofsRange C06.ProofsTie C06.ProofsTotal C06.ProofsInst C06.ProofsOob C06.ProofsE2E.
 Import ListNotations.
 Local Open Scope nat_scope.
 
@@ -211,10 +208,11 @@ Proof. exact @cforest_labels_original. Qed.
 (* regressor_within_target_range (exact arithmetic): every prediction of a fitted regressor forest —
    for ANY row, seen or unseen — and every out-of-bag prediction of a training row that has at least
    one out-of-bag tree lies between the smallest and the largest training target.  Weighted means of
-   weighted means; rests on C05's leaf-value invariant, hence `orders_sorted`. *)
+   weighted means.  No hypothesis on the feature orders or on the oracle: composed with C05's
+   end-to-end leaf-value theorem (quick_argsort proved to return a sorting permutation over R); tried
+   entries that are not column indices are shown to be no-ops (C06/ProofsE2E.v). *)
 Theorem C06_regressor_within_target_range : forall x y n_trees oracle md msl mss keep f lo hi,
   x <> [] -> length y = length x -> 1 <= msl -> 0 < n_trees ->
-  (forall t, t < n_trees -> orders_sorted x (snd (oracle t))) ->
   (forall i, i < length y -> (lo <= nth i y 0 <= hi)%R) ->
   fit_rforest ROps x y n_trees oracle md msl mss keep = Some f ->
   (forall row v, rf_predict_for_row ROps f row = Some v -> (lo <= v <= hi)%R) /\
@@ -222,8 +220,8 @@ Theorem C06_regressor_within_target_range : forall x y n_trees oracle md msl mss
      forall i v, i < length x -> nth_error out i = Some v ->
        oob_members (rf_trees f) masks i <> [] -> (lo <= v <= hi)%R).
 Proof.
-  intros x y n oracle md msl mss keep f lo hi NE Hy Hmsl Hn Hord Hb H.
-  pose proof (rforest_in_range x y n oracle md msl mss keep f lo hi NE Hy Hmsl Hord Hb H) as F.
+  intros x y n oracle md msl mss keep f lo hi NE Hy Hmsl Hn Hb H.
+  pose proof (rforest_in_range_e2e x y n oracle md msl mss keep f lo hi NE Hy Hmsl Hb H) as F.
   destruct (rforest_members ROps x y n oracle md msl mss keep f H) as (L & _).
   split.
   - intros row v P. destruct f as [trees smp]. cbn [rf_trees] in *.
@@ -233,6 +231,32 @@ Proof.
     destruct (Q i Hi) as (v' & P' & Hv'). rewrite Hv in Hv'. injection Hv' as <-.
     apply (forest_in_range lo hi _ None (nth i x []) v (oob_members_sub _ masks i _ F) NEm P').
 Qed.
+
+(* member trees of a fitted classifier forest (exact arithmetic for the feature comparisons): tree t
+   was grown on a bootstrap sample s of n draws (whose support is the stored mask), and the output of
+   EVERY node k of it is a class index with maximal bootstrap-weighted count among the training rows
+   routed to k — a majority class; `G k` is the weight vector of node k (row i has weight s[i] if it
+   is routed to k and 0 otherwise), `cvec` the per-class totals, `yi` the class index of each row.
+   C05_leaf_value_classification_weak composed with the fit structure; no hypothesis on the oracle. *)
+Theorem C06_member_trees_majority : forall lg2 crit x y n_trees oracle md msl mss keep f,
+  length y = length x ->
+  fit_cforest ROps lg2 crit x y n_trees oracle md msl mss keep = Some f ->
+  forall t, t < n_trees ->
+  exists s classes nodes d,
+    nth_error (cf_trees f) t = Some (classes, nodes, d) /\
+    length s = length x /\ sum_nat s = length x /\
+    (keep = true -> exists masks, cf_samples f = Some masks /\ nth_error masks t = Some (mask_of s)) /\
+    exists yi, length yi = length x /\
+      (forall i, i < length x -> nth i yi 0 < length classes /\ nth (nth i yi 0) classes 0%R = nth i y 0%R) /\
+      exists G D, tree_consistent ROps 0 x msl (cls_out_ok x yi (length classes)) s nodes G D /\
+        (forall i k, i < length x -> k < length nodes ->
+          (route ROps nodes (nth i x []) k -> nth i (G k) 0 = nth i s 0) /\
+          (~ route ROps nodes (nth i x []) k -> nth i (G k) 0 = 0)) /\
+        forall k, k < length nodes ->
+          output (nth k nodes (dnode 0)) < length classes /\
+          forall c, nth c (cvec x yi (length classes) (G k)) 0 <=
+                    nth (output (nth k nodes (dnode 0))) (cvec x yi (length classes) (G k)) 0.
+Proof. exact cforest_member_majority. Qed.
 
 (* ------------------------------------------------------------------------------------------ *)
 (* extensions stated, not proved (covered by correspondence and search only)                   *)
@@ -283,12 +307,11 @@ Example C06_range_instance :
             forall row v, rf_predict_for_row ROps f row = Some v -> (1 <= v <= 5)%R.
 Proof.
   destruct fit_xr as (f & H & _). exists f. split; [exact H|].
-  refine (proj1 (C06_regressor_within_target_range xr yr 2 orc None 1 10 true f 1%R 5%R _ _ _ _ _ _ H)).
+  refine (proj1 (C06_regressor_within_target_range xr yr 2 orc None 1 10 true f 1%R 5%R _ _ _ _ _ H)).
   - discriminate.
   - reflexivity.
   - lia.
   - lia.
-  - intros t _. exact orders_sorted_xr.
   - intros i Hi. unfold yr in *. cbn in Hi. destruct i as [|[|[|i]]]; cbn; try lra. lia.
 Qed.
 
